@@ -25,6 +25,17 @@ def cases(tier):
                 kidx += 1
                 for k in kinds:
                     out.append(dict(n=n, i=i, mode=mode, kind=k))
+    # every position of the widest arity (each clause macro has its own list of _1 .. _15 bindings),
+    # by reference (identity / write-through observable) and by value; and a THROW-terminated variant
+    for i in range(1, 16):
+        for mode in ('lref', 'value'):
+            c = dict(n=15, i=i, mode=mode, kind='plain')
+            if c not in out:
+                out.append(c)
+        out.append(dict(n=15, i=i, mode='lref', kind='throw'))
+    for n in ((3, 9, 12) if tier == 'quick' else range(1, 15)):
+        for i in sorted({1, n}):
+            out.append(dict(n=n, i=i, mode='lref', kind='throw'))
     for k in KINDS:
         out.append(dict(n=0, i=0, mode='none', kind=k))
     return out
@@ -34,7 +45,7 @@ def gen_case(cid, c):
     types = ['int'] * n
     if n:
         types[i - 1] = ptype(mode)
-    ret = 'int&' if mode == 'lref' else 'int'
+    ret = 'int&' if (mode == 'lref' and kind != 'throw') else ('void' if kind == 'throw' else 'int')
     sig = '%s(%s)' % (ret, ', '.join(types))
     const = kind == 'const'
     L = []
@@ -87,7 +98,9 @@ def gen_case(cid, c):
             L.append('    .SIDE_EFFECT(%s = 77)' % pi)
         elif mode == 'ptr':
             L.append('    .SIDE_EFFECT(*%s = 77)' % pi)
-    if mode == 'lref':
+    if kind == 'throw':
+        L.append('    .THROW((rec(%d, F_STABLE_R, %s == g_self), rec(%d, F_RETAL, %s == g_addr), 5));' % (cid, self_expr, cid, addr_expr))
+    elif mode == 'lref':
         L.append('    .RETURN(%s);' % pi)
     elif n:
         L.append('    .RETURN((rec(%d, F_STABLE_R, %s == g_self), 0));' % (cid, self_expr))
@@ -103,7 +116,9 @@ def gen_case(cid, c):
             callargs.append({'value': 'obj', 'lref': 'obj', 'clref': 'obj', 'rref': 'std::move(obj)', 'ptr': '&obj',
                              'uptr': 'std::move(obj)', 'ccval': 'std::move(obj)', 'ccref': 'obj'}[mode])
     callee = 'static_cast<%s const&>(m)' % name if const else ('static_cast<I%d&>(m)' % cid if kind == 'implement' else 'm')
-    if mode == 'lref':
+    if kind == 'throw':
+        L.append('  try { %s.f(%s); } catch (int) {}' % (callee, ', '.join(callargs)))
+    elif mode == 'lref':
         L.append('  int& r = %s.f(%s); rec(%d, F_RETAL, &r == &obj);' % (callee, ', '.join(callargs), cid))
     else:
         L.append('  (void)%s.f(%s);' % (callee, ', '.join(callargs)))
